@@ -1112,7 +1112,7 @@ func main() {
 	//     supervoxel split, one block (or, for a split, two) of the same level-1 / level-2 parent at a
 	//     time; after every step ALL levels of BOTH versions are compared with what each version's own
 	//     level 0 gives
-	nDag := 2
+	nDag := 1 // quick tier: one version-DAG history (each costs about 25 s of child servers and level reads)
 	if o.Thorough() {
 		nDag = 10
 	}
